@@ -252,13 +252,15 @@ def c11(tier):
     r = common.rng("C11")
     corpus = [t for t in gen.mixed_corpus(r, n) if t.strip()]
     tagged = []
-    for i in range(max(20, n // 10)):
-        tagged.append(gen.box(r.randint(5, 12), r.randint(1, 3), r.choice(["sharp", "round", "uni"]),
-                              r.choice(["{a}", "{abc}", "{a1,b2}"])))
+    for i in range(max(30, n // 10)):
+        tg = r.choice(["{a}", "{abc}", "{a1,b2}"])
+        # tight boxes too: the tag touches the walls of its box
+        tagged.append(gen.box(len(tg) + r.choice([0, 0, 1, 3, 6]), r.randint(1, 3), r.choice(["sharp", "round", "uni"]), tg))
     groups = []
+    tagged_set = set(tagged)
     for t in corpus + tagged:
         g = [({"input": t, "entry": "settings", "settings": {"scale": 8.0}}, None)]
-        scales = SCALES if tier == "thorough" else r.sample(SCALES, 2)
+        scales = SCALES if tier == "thorough" else (r.sample(SCALES, 2) if t not in tagged_set else [0.5, 1] + r.sample(SCALES[2:], 1))
         for j, s in enumerate(scales):
             g.append(({"input": t, "entry": "settings", "settings": {"scale": s}}, {"kind": "scale", "of": j + 1}))
         groups.append(g)
@@ -338,7 +340,7 @@ def c12(tier):
                 "{0.5, 8, 37.5}; the model part: the same predicate as invariant of Pipeline.tla on all small grids. "
                 "non-trivial = non-empty document")
     r = common.rng("C12")
-    cfg = write_cfg("MC_C12", {"W": 3, "H": 2, "Alphabet": tla_set([32, 45, 124, 43, 46, 39, 97])},
+    cfg = write_cfg("MC_C12", {"W": 3, "H": 2, "Alphabet": tla_set([32, 45, 124, 43, 46, 96, 95])},
                     ["ModelC12", "ModelC09"])
     run.model("MC_Doc", cfg)
     corpus = [t for t in gen.mixed_corpus(r, n)]
@@ -386,7 +388,7 @@ def c09(tier):
                 "part: merge fixpoint + NoCollinearTouching as invariants of Pipeline.tla on all small grids. "
                 "non-trivial = the document has at least two plain lines, or is a run" % maxlen)
     r = common.rng("C09")
-    cfg = write_cfg("MC_C09", {"W": 3, "H": 2, "Alphabet": tla_set([32, 45, 124, 43, 126, 58, 46])},
+    cfg = write_cfg("MC_C09", {"W": 3, "H": 2, "Alphabet": tla_set([32, 45, 124, 43, 126, 95, 61])},
                     ["ModelC09", "MergeFixpoint"])
     run.model("MC_Doc", cfg)
     runs = []
@@ -617,8 +619,13 @@ def c02(tier):
         d = "".join(chr(c) for c in chunk if c not in (123, 125))
         cases.append(("a\n# Legend:\nk = {" + d + "}\n", "legend", [], [[ord(ch) for ch in d]]))
     hostile = ["<", ">", "&", "'", "\"a\"", "]]>", "a&b<c>d", "&amp;", "&#0;", "<!--", "\x00\x01\x02", "\x7f\x80\x9f", "￾￿"]
+    hostile += ["status\x1bok", "abc\x01def", "m[i[j]]>0", "a[b[0]]>c", "x]]>", "]]>]]>", "a\x08b", "ok\x0cgo", "1<2>0", "a&&b", "\x7f\x1f"]
     for hst in hostile:
         cases.append((hst, "plain", [], []))
+        q = hst.replace('"', "'").replace("\\", "/")
+        cases.append((' "' + q + '" --', "quoted", [[ord(ch) for ch in q]], []))
+        d = hst.replace("{", "(").replace("}", ")")
+        cases.append(("a\n# Legend:\nk = {" + d + "}\n", "legend", [], [[ord(ch) for ch in d]]))
     reqs = []
     combos = [(a, b, c) for a in (True, False) for b in (True, False) for c in (True, False)]
     for i, (t, chan, _, _) in enumerate(cases):
@@ -1028,8 +1035,10 @@ def c16(tier):
             # a tag outside all shapes, on its own row below, separated by a blank row
             if r.random() < 0.6:
                 nm = rand_tagname(r)
-                rows += ["", "  {" + nm + "}"]
-                tags.append({"r": len(rows) - 1, "c": 2, "names": [[ord(c) for c in nm]], "inside": 0})
+                word = r.choice(["", "", "abc ", "ддддд ", "éüñß ", "一二 ", "x "])
+                wcols = sum(2 if c in gen.WIDE else 1 for c in word)
+                rows += ["", "  " + word + "{" + nm + "}"]
+                tags.append({"r": len(rows) - 1, "c": 2 + wcols, "names": [[ord(c) for c in nm]], "inside": 0})
             k, nn_ = r.randint(0, 3), r.randint(0, 2)
             rows = [""] * nn_ + [" " * k + x for x in rows]
             for tg in tags:
@@ -1273,7 +1282,9 @@ def c07(tier):
                 % (("t1, t2" if tier == "quick" else "t1, t2, t3"), 2 if tier == "quick" else 1))
     run.model("Service", path, timeout=3000)
     corpus = [t for t in gen.mixed_corpus(r, ninputs)] + [b for _, b in gen.bundled_files()][:6]
-    corpus += [gen.box(6, 1, "round", "{a}") + "\n# Legend:\na = {fill:red}", '"quoted" text 一二']
+    corpus += [gen.box(6, 1, "round", "{a}") + "\n# Legend:\na = {fill:red}", '"quoted" text 一二',
+               gen.box(20, 1, "sharp", "{red,big,bold,hot}"), gen.box(12, 2, "uni", "{x1,y2,z3}") + "  ( a )--  ( b )--",
+               "  ( a )--\n\n        ( a )--", gen.box(16, 1, "round", "{k1,k2,k3,k4}") + "\n# Legend:\nk1={a}\nk2={b}"]
     sets = [None, {"scale": 3.0}, {"include_styles": False, "font_family": "x"}]
     reqs = []
     for i, t in enumerate(corpus):
